@@ -424,7 +424,10 @@ def t_skin(eng):
             zs = mk(CX(0, 1))
         zspec[id(w)] = zs
         cached = eng.getfield(w, 'zint')
-        eng.assume(SV(z3.Or(cached.isnone, bterm(c_eq(cached.val, zs))), 'bool'))
+        # INV_ZINT: either nothing is cached or the cached value is the one for this frequency (split here so that the
+        # equality is a plain fact of the path)
+        if not eng.decide(SV(cached.isnone, 'bool')):
+            eng.assume(c_eq(cached.val, zs))
     for i, w in enumerate((g0, g1)):
         if zspec[id(w)] is None:
             continue
